@@ -288,6 +288,23 @@ func (k c19) Run(c *rt.Ctx) {
 		}
 		rec.Inc("focus_rounds")
 	}
+	if c.Case%4 == 3 && (c.Case/4)%3 == 0 {
+		// wave 15 (C19-aa): a focus round of its own for statements that turn integers into text -
+		// a conversion buffer shared by all statements is only written by this kind of statement
+		fp := []string{
+			"select key, str(int(value)) as s, str(strlen(key) * 1000003) where key ^= '%[1]s' & is_int(value)",
+			"select group_concat(strlen(key) * 7919, ','), group_concat(int(value), '+') where key ^= '%[1]s' & is_int(value)",
+			"select key, str(int(value) * 1234567 + 89) + '/' + str(0 - strlen(key)) where key ^= '%[1]s' & is_int(value)",
+			"select value, group_concat(int(value) * 100000 + strlen(key), ';') where key ^= '%[1]s' & is_int(value) group by value",
+		}
+		for _, p := range plans {
+			for i := range p.stmts {
+				p.stmts[i] = fmt.Sprintf(fp[(c.Case/12+i)%len(fp)], p.prefix)
+				p.batch[i] = i%3 != 2
+			}
+		}
+		rec.Inc("focus_rounds_integers_to_text")
+	}
 	if storeMode == "shared-readonly" && r.Chance(2, 3) {
 		// the very same statement text in every goroutine, first in line (they start together):
 		// anything the library keeps per query text or per function spelling is then shared
